@@ -1,9 +1,18 @@
 #!/bin/sh
-# usage: ./seedtest.sh <seed-dir-name> <property-id> [check args]   -- applies seeded/<name>/patch.diff to /repo, runs the check, reverts
+# usage: ./seedtest.sh <seed-dir-name> <property-id> [check args]
+# Applies seeded/<name>/patch.diff to a scratch copy of /repo (outside /repo and /verif), runs the property's check against
+# that copy (QX_REPO), prints the verdict and removes the copy.  Evidence/replays of the experiment go to the scratch dir.
 S=$1; P=$2; shift 2
-git -C /repo diff --quiet || { echo "/repo is dirty"; exit 3; }
-git -C /repo apply /verif/seeded/$S/patch.diff || { echo "patch does not apply"; exit 3; }
-./check $P "$@"; rc=$?
-git -C /repo checkout -- .
+D=$(mktemp -d /var/tmp/qx_seed.XXXXXX)
+trap 'rm -rf "$D"' EXIT
+mkdir -p "$D/repo" && cp -r /repo/Include "$D/repo/Include" && ( cd "$D/repo" && git init -q . && git apply /verif/seeded/$S/patch.diff ) || { echo "seed $S: patch does not apply to the current tree"; exit 3; }
+QX_REPO="$D/repo" QX_OUT="$D/out" /verif/check $P "$@" > "$D/log" 2>&1; rc=$?
+grep -E "VIOLATION|UNDECIDED|PASS|KNOWN" "$D/log" | sed "s#$D#<scratch>#g" | cut -c1-260
+for f in "$D"/out/replays/$P/*.json; do [ -f "$f" ] && python3 - "$f" <<'PY'
+import json,sys
+d=json.load(open(sys.argv[1])); c=d.get('concretisation',{})
+print('   obligation:', d.get('obligation'), '| reproduced:', c.get('reproduced'), '| inputs:', str(c.get('inputs'))[:300])
+PY
+done
 echo "seed $S on $P -> exit $rc"
 exit $rc
